@@ -11,6 +11,21 @@ CLAIMED = {
    technique='Coq proof (induction + finite kernel sweep) + differential model/implementation correspondence',
    ref='DESIGN.md §8 C18'),
 
+ 'C08': dict(
+   text='Full-strength theorems over all ASTs of the documented operator class (coq/Properties/C08.v, 11 theorems, no axioms): the Gallina mirror of parser.rs (39-constructor call enum, one per Rust function and loop, fuel = call depth, proved sufficient: C08_parser_terminates) parses the minimal-parenthesis printing of ANY table AST to exactly that AST with Parens nodes where the printer wrote them (C08_level_complete for all 16 levels, C08_parse_print_min(_completed)), hence value(min) = value(full) for any evaluator ignoring Parens (C08_precedence) and redundant parentheses are harmless (C08_redundant_parens). Tie: the model parser consumes the REAL lexer token stream (hook) and must return the real parser AST / ParseError on table ASTs (all 144 operator pairs + random trees to depth 6/9), a heuristics corpus and token soup; evaluate(min) = evaluate(full) = independent Python precedence-climbing reference.',
+   note='Trusted: Coq kernel; extraction+driver (vm_compute cross-sample); hook lex_parse dump; lexer itself is not modelled (theorems start at token streams; that printed text lexes to the printer tokens is checked per case). Outside the table class (mixed fractions, implicit sums, to, lambdas, of) correspondence only.',
+   technique='Coq proof by structural induction on ASTs over a faithful recursive-descent parser model + token-level differential correspondence',
+   ref='DESIGN.md §8 C08, notes/C08.md'),
+ 'C16': dict(
+   text='34 theorems over unbounded Z for every representable (non-zero i32) year, BC included, by induction and lia, no sweeps (coq/Properties/C16.v): rata-die day number is a bijection with the valid dates; next/prev change it by exactly 1, preserve validity and only fail with an error at the ends of the i32 range; add/sub n days round-trip; the code weekday formula = rd mod 7 (consecutive days, anchored 1970-01-01 = Thursday; unreachable!() is dead); weeks/months/years land on the calendar-correct date or report non-existence with the right neighbours; a literal is accepted iff 1000 <= Y <= i32::MAX, no leading zero, and (Y,M,D) is a real Gregorian date. The model mirrors date.rs after four fix: commits that this check motivated. Tie: L1 hook on raw dates + L2 evaluate of every operation the property names against model and rd-based spec (132k cases quick; every day of 999-10001 thorough).',
+   note='Trusted: Coq kernel; extraction+driver; hook (Date via existing (de)serialize). The numeric operand of +/- (unit matching, try_as_usize_unit) is outside the model. Adding months is tied at L1 only.',
+   technique='Coq proof over Z (closed-form day number, induction, lia) + differential correspondence',
+   ref='DESIGN.md §8 C16, notes/C16.md'),
+ 'C17': dict(
+   text='21 theorems for all N, M and all arithmetic combinations, by induction (coq/Properties/C17.v, no axioms): new_die gives count_tuples/M^N for every outcome, bop is the independent-rolls convolution with merged distinct outcomes, eval agrees with the naive unmerged denotation on every probability and on the support, probabilities sum to 1 and are positive, listing strictly increasing, mean = exact expectation (N(M+1)/2 for NdM), two-decimal percentage within half a unit of the exact value, sample always returns a member of the support and, under the stated weight oracle (premise, not axiom), every non-negligible outcome is produced by some r (explicit witness). Tie: L1 exact parts (hook decodes the Dist from the existing serializer) and sampling under a harness-controlled random source at 0, 2^32-1, a grid and every cumulative threshold +-1; L2 printed distribution, mean, roll; spec also as independent Python Fraction convolution.',
+   note='Trusted: Coq kernel; extraction+driver; hook; f64 conversion of probabilities and {:.2} float formatting are oracles (either neighbour accepted within 5e-13 of a rounding tie). Interrupts, the exact flag and terminal bars are outside the model.',
+   technique='Coq proof by induction over dice expressions in Q + differential correspondence with exact parts',
+   ref='DESIGN.md §8 C17, notes/C17.md'),
  'C06': dict(
    text='Partial by nature. Proved (coq/Properties/C06.v): panic-freedom of the modelled functions reachable from evaluate/preview/inline (JSON escaper and inline JSON for all Unicode text, superscript-exponent accumulation for digit strings of any length in checked and unchecked builds, the i^y selector); the other areas add their own no-panic theorems in their property files. Observed, not proved: everything else, by crash probes on the default build (feature off) in debug (overflow checks) and release profiles over 48 context configurations: suite+manual corpus read from /repo, mutations, token soup, every typed prefix, bounded nesting ramps. Native stack exhaustion is reachable (two open known findings).',
    note='Trusted: Coq kernel; extraction+driver; harness_plain; 8 MiB stack / 4 GiB address-space limits of the probe workers. Hangs and >=128 MiB allocation failures are counted as resource exhaustion (C07), not crashes. Models tied by correspondence (superscripts vs evaluate).',
